@@ -101,6 +101,9 @@ func c10Gen(tape *simrt.Tape, tier string) *c10Case {
 		case 6:
 			sc.Fault = cfPremature
 			sc.PrematureName = c.Names[tape.Choose(n, "premature")]
+			sc.FaultAfter = tape.Choose(n, "prematureat")
+			sc.PrematureBytes = tape.Choose(5, "prematurebytes")
+			sc.PrematureExit = tape.Bool(1, 2, "prematureexit")
 		case 7:
 			sc.ExitAfterRead = tape.Choose(n+1, "exitafter")
 			sc.ExitNonZero = tape.Bool(1, 2, "nonzero")
